@@ -644,13 +644,24 @@ class Stats:
         self.capped = None
 
 
+MAX_VIOLATING_SCHEDULES = 25  # per sub-tree: a refuted property needs no exhaustive refutation
+DEADLINE = [None]  # wall-clock deadline (time.time()) for the exploration in progress
+
+
 def explore_subtree(body, check, traced_codes, bound, root_prefix, stats, max_execs=None, max_steps=20000):
     """Depth-first exploration below root_prefix.  check(result, prefix) -> list of violation dicts."""
     stack = [list(root_prefix)]
     viols = []
+    bad_execs = 0
     while stack:
         if max_execs is not None and stats.executions >= max_execs:
             stats.capped = f"execution cap {max_execs}"
+            break
+        if bad_execs >= MAX_VIOLATING_SCHEDULES:
+            stats.capped = f"stopped after {bad_execs} violating schedules in one sub-tree"
+            break
+        if DEADLINE[0] is not None and _time.time() > DEADLINE[0]:
+            stats.capped = "wall-clock budget of this exploration reached"
             break
         prefix = stack.pop()
         r = run_once(body, prefix, traced_codes, max_steps)
@@ -658,7 +669,10 @@ def explore_subtree(body, check, traced_codes, bound, root_prefix, stats, max_ex
         stats.steps += r.steps
         stats.sigs |= r.sigs
         stats.max_choice_points = max(stats.max_choice_points, len(r.trace))
-        for v in check(r, prefix) or []:
+        vs = check(r, prefix) or []
+        if vs:
+            bad_execs += 1
+        for v in vs:
             v.setdefault("case", {})["schedule"] = [x[1] for x in r.trace]
             viols.append(v)
         for child in reversed(_children(r.trace, len(prefix), bound)):
@@ -684,7 +698,7 @@ def _worker_init():
         setup()
 
 
-def explore(body, check, traced_codes, bound, ctx, setup=None, max_execs_per_shard=None, max_steps=20000, split_depth=2):
+def explore(body, check, traced_codes, bound, ctx, setup=None, max_execs_per_shard=None, max_steps=20000, split_depth=2, budget_s=None):
     """Explore all schedules with <= bound preemptions.  The first `split_depth` levels of the
     schedule tree are expanded in the parent to obtain independent sub-trees for the workers."""
     global _JOB
@@ -693,6 +707,9 @@ def explore(body, check, traced_codes, bound, ctx, setup=None, max_execs_per_sha
         setup()
     st = Stats()
     viols = []
+    if budget_s is None:
+        budget_s = 240 if ctx.tier == "quick" else 1500
+    DEADLINE[0] = _time.time() + budget_s
     # expand the top of the tree sequentially
     frontier = [[]]
     shards = []
@@ -712,6 +729,10 @@ def explore(body, check, traced_codes, bound, ctx, setup=None, max_execs_per_sha
         if not frontier:
             break
     shards = frontier
+    if len(viols) >= MAX_VIOLATING_SCHEDULES:
+        # already refuted at the top of the tree: sample no further
+        st.capped = f"stopped: {len(viols)} violations in the first {st.executions} schedules"
+        shards = []
     if shards:
         # each shard root itself still has to be executed: explore_subtree does that
         res = common.pmap(_worker, shards, ctx.jobs, chunk=max(1, len(shards) // (ctx.jobs * 4) or 1), init=_worker_init, seed=ctx.seed)
